@@ -39,8 +39,9 @@ BOUND_COMPONENTS = ["Comp", "Foo", "Bar"]
 BOUND_VALUES = ["val", "obj", "fn1", "cls", "list", "slotsObj"]
 UNBOUND_VALUES = ["x", "y", "z", "handler", "data"]
 UNBOUND_COMPONENTS = ["Unk", "RouterView"]
-HTML_TAGS = ["div", "span", "p", "input", "select", "textarea", "a", "ul", "li", "button"]
-SVG_TAGS = ["svg", "circle", "path"]
+HTML_TAGS = ["div", "span", "p", "input", "select", "textarea", "a", "ul", "li", "button", "pre", "code", "script", "style", "template", "slot",
+             "option", "label", "table", "td", "h1", "br", "img", "form", "main", "b", "i", "title", "html", "body", "component", "transition"]
+SVG_TAGS = ["svg", "circle", "path", "text", "tspan", "foreignObject", "g", "style"]
 CUSTOM_TAGS = ["my-el", "x-foo", "custom", "_x-panel", "X-Upper", "my-el.v2".replace(".v2", "-v2")]
 
 PRELUDE = ("import { Comp, Foo } from './comps';\nimport * as NS from './ns';\n"
@@ -157,7 +158,7 @@ class Gen:
         }[k]()
 
     def attr_value(self, d):
-        w = self.p.get("attr_values", {"string": 4, "none": 2, "expr": 6, "const": 3, "string-ws": 1, "jsx": 0, "empty": 0})
+        w = self.p.get("attr_values", {"string": 4, "none": 2, "expr": 6, "const": 3, "string-ws": 1, "jsx": 1, "empty": 0})
         k = self.r.wpick([(a, b) for a, b in w.items() if b > 0])
         self.u("attrval:" + k)
         if k == "string":
@@ -171,7 +172,9 @@ class Gen:
         if k == "const":
             return "={%s}" % self.const_expr()
         if k == "jsx":
-            return "=" + self.r.pick(["<b/>", "<></>"])
+            if d < 2 and self.r.chance(0.6):
+                return "=" + self.element(d + 2)
+            return "=" + self.r.pick(["<b/>", "<></>", "<i v-foo={x}/>", "<Comp v-show={y} id=\"a\"/>", "<>t</>"])
         return "={}"
 
     def directive(self, d):
